@@ -340,6 +340,27 @@ static int inject_invloop(struct context_data *ctx)
 	return n;
 }
 
+/* structure-aware variation of a loaded module (states a loader may legitimately produce): looped samples
+ * become bidirectional; samples that satisfy the FULLREP condition (lps == 0, len > lpe) get XMP_SAMPLE_LOOP_FULL */
+static int vary_loops(struct xmp_module *mod)
+{
+	int i, n = 0;
+	for (i = 0; i < mod->smp; i++) {
+		struct xmp_sample *x = &mod->xxs[i];
+		if (!(x->flg & XMP_SAMPLE_LOOP) || x->data == NULL)
+			continue;
+		if (vrng_chance(30)) {
+			x->flg ^= XMP_SAMPLE_LOOP_BIDIR;
+			n++;
+		}
+		if (x->lps == 0 && x->len > x->lpe && vrng_chance(50)) {
+			x->flg |= XMP_SAMPLE_LOOP_FULL;
+			n++;
+		}
+	}
+	return n;
+}
+
 static int scan_invloop(struct xmp_module *mod)
 {
 	int t, r;
@@ -430,6 +451,8 @@ static int run_case(uint64_t case_seed, int nops, const char *path)
 	if (vrng_chance(60))
 		inject = inject_invloop(ctx);
 	has_invloop_fx = scan_invloop(mod);
+	if (vrng_chance(35))
+		inject += 1000 * vary_loops(mod);
 	take_snapshot(ctx, &snap);
 	printf("case %llu %d %s rate=%d fmt=%d interp=%d inject=%d invloopfx=%d smp=%d pat=%d\n",
 	       (unsigned long long)case_seed, nops, path, rate, fmt, interp, inject, has_invloop_fx, mod->smp, mod->pat);
